@@ -11,7 +11,6 @@
 #include <primitives/transaction.h>
 #include <txrequest.h>
 #include <uint256.h>
-#include <util/transaction_identifier.h>
 
 #include <algorithm>
 #include <chrono>
